@@ -47,6 +47,7 @@ R.contract(
     ensures=dict(PART),
     lemmas={"psum_nonneg": ("n", "0", "len(self.weights)", "psum(self.weights, n) >= 0")},
     post_lemmas={"share_sums_nonneg": ("n", "0", "len(shares)", "psum(shares, n) >= 0")},
+    proves={"pre_shares_nonneg": "forall(0, len(shares), lambda k: shares[k] >= 0)"},
     fresh_result=True,
     props=["C15", "C16"],
 )
